@@ -9,6 +9,7 @@
 (* are in quarters (4 = rate 1), fractional positions are multiples of 1/4. *)
 (*                                                                          *)
 (*   reset  len sl ss se start lp ls le rev rq sr dev   the sound's settings*)
+(*   made   pos px         the sound was created; reported position         *)
 (*   begin  pos px st      on_start_processing returned; reported position  *)
 (*   proc   n              a process call for n output frames starts        *)
 (*   frame  v x            one output frame (x = 1: not exact / channels differ)*)
@@ -163,7 +164,8 @@ PInit(c) ==
              step |-> IF stepOK THEN num \div c.dev ELSE Q, f |-> 0,
              hyps |-> {}, open |-> FALSE, stopped |-> FALSE, dr |-> 0,
              cmd |-> "", age |-> 0, nearEnd |-> FALSE, prate |-> 0, arate |-> 0,
-             rneg |-> c.rq < 0, srn |-> c.sr, srd |-> c.dev, pe |-> NoCmd, sat |-> FALSE]
+             rneg |-> c.rq < 0, srn |-> c.sr, srd |-> c.dev, pe |-> NoCmd, sat |-> FALSE,
+             made |-> -7]     \* the position reported at creation, until the first frame tells which reading of `start` applies
       defined == /\ sliceOK /\ stepOK /\ LoopOK(n, lp)
                  /\ c.start >= 0
                  /\ (c.start < n \/ (c.start = 0 /\ n = 0 /\ ~c.rev))
@@ -205,6 +207,8 @@ Check(m, e) ==
          ELSE IF m.stopped THEN (IF e.v # 0 THEN "silent_after_stopped" ELSE "")
          ELSE IF m.f = 0 /\ ~InSlice(m, e.v) THEN "never_reads_outside_slice"
          ELSE IF \A h \in m.hyps : ~Matches(m, h, e.v) THEN FrameReason(m)
+         \* (the position reported at creation named the frame that is heard first)
+         ELSE IF m.made # -7 /\ (\A h \in {x \in m.hyps : Matches(m, x, e.v)} : ~PosOK(m, h, m.made)) THEN "position_names_heard_frame"
          ELSE ""
     [] e.a = "begin" ->
          LET r == StateReason(m, e.st) IN
@@ -212,6 +216,8 @@ Check(m, e) ==
          ELSE IF e.st = "Stopped" THEN ""
          ELSE IF e.px # 0 \/ (\A h \in m.hyps : ~PosOK(m, h, e.pos)) THEN Named(m, "position_names_heard_frame")
          ELSE ""
+    \* (made: the position the handle reports right after the sound was created, before any callback)
+    [] e.a = "made" -> IF e.px # 0 \/ (\A h \in m.hyps : ~PosOK(m, h, e.pos)) THEN Named(m, "position_names_heard_frame") ELSE ""
     [] e.a = "end" ->
          LET r == StateReason(m, e.st) IN
          IF r # "" THEN Named(m, r)
@@ -279,7 +285,7 @@ Upd(m, e) ==
                   f1 == m.f + m.step
                   k  == f1 \div Q
                   r  == ShiftDr(m, hs, m.dr, k)
-              IN [m EXCEPT !.hyps = r[1], !.dr = r[2], !.f = f1 % Q, !.age = IF @ < 100 THEN @ + k ELSE @]
+              IN [m EXCEPT !.hyps = r[1], !.dr = r[2], !.f = f1 % Q, !.age = IF @ < 100 THEN @ + k ELSE @, !.made = -7]
     [] e.a = "begin" ->
          LET m1 == SeeState(m, e.st)
              m2 == IF m1.stopped THEN m1 ELSE [m1 EXCEPT !.hyps = {h \in m1.hyps : PosOK(m1, h, e.pos)}]
@@ -289,6 +295,7 @@ Upd(m, e) ==
          IF m.arate = 0 THEN m
          ELSE IF e.n = 1 THEN [m EXCEPT !.step = m.arate, !.arate = 0]
          ELSE [m EXCEPT !.open = TRUE]
+    [] e.a = "made" -> IF e.px = 0 THEN [m EXCEPT !.made = e.pos] ELSE m
     [] e.a = "end" -> SeeState(m, e.st)
     [] e.a \in {"seek_to", "seek_by", "set_loop"} -> Stash(m, e)
     [] e.a = "set_rate" ->
